@@ -1346,8 +1346,29 @@ def canonical_func(fi):
             if not (isinstance(body, list) and body and isinstance(body[0], ast.stmt)):
                 continue
             for d_ in [x for x in body if isinstance(x, ast.FunctionDef) and x is not fn_node]:
+                merge_tail_returns(d_.body)
                 stmts = [x for x in d_.body if not (isinstance(x, ast.Expr) and isinstance(x.value, ast.Constant))]
                 a_ = d_.args
+                if len(stmts) == 1 and isinstance(stmts[0], ast.If) and len(stmts[0].body) == 1 and len(stmts[0].orelse) == 1 \
+                        and isinstance(stmts[0].body[0], ast.Return) and isinstance(stmts[0].orelse[0], ast.Return) \
+                        and stmts[0].body[0].value is not None and stmts[0].orelse[0].value is not None:
+                    i0 = stmts[0]
+                    stmts = [ast.copy_location(ast.Return(value=ast.IfExp(test=i0.test, body=i0.body[0].value, orelse=i0.orelse[0].value)), i0)]
+                # straight-line temporaries in front of the return are folded into it
+                if len(stmts) > 1 and isinstance(stmts[-1], ast.Return) and stmts[-1].value is not None and all(
+                        isinstance(x, ast.Assign) and len(x.targets) == 1 and isinstance(x.targets[0], ast.Name) for x in stmts[:-1]):
+                    env = {}
+
+                    def subst(e_):
+                        class S_(ast.NodeTransformer):
+                            def visit_Name(self, n):
+                                if isinstance(n.ctx, ast.Load) and n.id in env:
+                                    return copy_ast(env[n.id])
+                                return n
+                        return S_().visit(copy_ast(e_))
+                    for x in stmts[:-1]:
+                        env[x.targets[0].id] = subst(x.value)
+                    stmts = [ast.copy_location(ast.Return(value=subst(stmts[-1].value)), stmts[-1])]
                 if len(stmts) != 1 or not isinstance(stmts[0], ast.Return) or stmts[0].value is None or d_.decorator_list \
                         or a_.vararg or a_.kwarg or a_.kwonlyargs or a_.defaults:
                     continue
